@@ -327,10 +327,22 @@ pub fn run(p: &Params) -> Outcome {
                     1 => e[e.len() - 1].0,
                     _ => e[rng.usize_below(e.len())].0,
                 };
-                for x in e.iter_mut() {
-                    if x.0 == victim {
-                        x.0 = bad;
+                if rng.bool() {
+                    for x in e.iter_mut() {
+                        if x.0 == victim {
+                            x.0 = bad;
+                        }
                     }
+                } else if e.len() < 390 {
+                    // an additional entry with the bad id (all valid slots may already be
+                    // present): at the end, at the front or anywhere
+                    let tmpl = e[rng.usize_below(e.len())];
+                    let at = match rng.below(3) {
+                        0 => e.len(),
+                        1 => 0,
+                        _ => rng.usize_below(e.len() + 1),
+                    };
+                    e.insert(at, (bad, tmpl.1, tmpl.2, tmpl.3));
                 }
                 class = "one_satellite_id_out_of_range";
             }
